@@ -19,7 +19,9 @@ COMPONENTS = {
              "ctparse.timers (timeout closure, timeit)", "ctparse.nb_scorer + shipped model",
              "ctparse.time.postprocess_latent", "regex", "dateutil"],
     "stub": ["time.perf_counter -> VirtualMonotonic (tick / jitter / stall)",
-             "Scorer -> counting delegate around the shipped model or DummyScorer"],
+             "Scorer -> counting delegate around the shipped model or DummyScorer; in 'default' runs "
+             "the library's own scorer object, counted per model row at CTParsePipeline."
+             "predict_log_proba"],
 }
 RULE = {"*": "one evaluation = one parse executed with the deadline placed strictly between "
              "two consecutive reads of the virtual monotonic clock (or a stall injected at a "
@@ -73,6 +75,10 @@ class Counting:
 
 
 def _mk_scorer(lib, kind, log):
+    if kind in ("default", "default_none"):
+        # the library's own scorer object, not wrapped (or not passed at all): its work is
+        # counted one level down, per document row handed to the model (see Instrument)
+        return lib["ctparse"]._DEFAULT_SCORER if kind == "default" else None
     if kind == "dummy":
         inner = lib["scorer"].DummyScorer()
     else:
@@ -85,10 +91,11 @@ def _mk_scorer(lib, kind, log):
 class Instrument:
     """Installs the clock and the counting wrappers; restores on exit."""
 
-    def __init__(self, lib, log, clock):
+    def __init__(self, lib, log, clock, count_model_rows=False):
         self.lib = lib
         self.log = log
         self.clock = clock
+        self.count_model_rows = count_model_rows
 
     def __enter__(self):
         lib, log = self.lib, self.log
@@ -122,6 +129,34 @@ class Instrument:
         PP.from_regex_matches = classmethod(from_regex_matches)
         PP.apply_rule = apply_rule
         PP._filter_rules = _filter_rules
+        self.saved_predict = None
+        if self.count_model_rows:
+            # one scoring = one document row the naive-Bayes model is asked about, whoever
+            # asks (score, score_final, or anything a refactoring puts next to them)
+            import sys as _sys
+            Pipe = lib["pipeline"].CTParsePipeline
+            self.saved_predict = Pipe.__dict__["predict_log_proba"]
+            orig_predict = self.saved_predict
+            n = {"n": 0}
+
+            def predict_log_proba(self_, X, *a, **k):
+                rows = list(X)
+                f, final = _sys._getframe(1), False
+                for _ in range(4):
+                    if f is None:
+                        break
+                    if f.f_code.co_name == "score_final":
+                        final = True
+                        break
+                    f = f.f_back
+                for _ in rows:
+                    n["n"] += 1
+                    if n["n"] > STEP_CAP:
+                        raise StepCap()
+                    log.append(("score_final",) if final else ("score",))
+                return orig_predict(self_, rows, *a, **k)
+
+            Pipe.predict_log_proba = predict_log_proba
         return self
 
     def __exit__(self, *a):
@@ -130,6 +165,8 @@ class Instrument:
         PP.from_regex_matches = self.saved[1]
         PP.apply_rule = self.saved[2]
         PP._filter_rules = self.saved[3]
+        if self.saved_predict is not None:
+            self.lib["pipeline"].CTParsePipeline.predict_log_proba = self.saved_predict
         return False
 
 
@@ -145,7 +182,7 @@ def _run(lib, case, timeout, entry, deltas=None, stall_at=None, stall_by=0.0, cs
               max_stack_depth=o.get("max_stack_depth", 10), scorer=sc,
               latent_time=o.get("latent_time", True))
     out, exc = None, None
-    with Instrument(lib, log, clock):
+    with Instrument(lib, log, clock, o.get("scorer") in ("default", "default_none")):
         try:
             if entry == "gen":
                 out = []
@@ -488,9 +525,13 @@ def plan(prop, tier, seed):
         opts = {"scorer": "shipped", "max_stack_depth": 10, "latent_time": True,
                 "relative_match_len": 1.0}
         r = rng.random()
+        if fam == "family" and r < 0.35:
+            opts["scorer"] = rng.choice(["default", "default_none"])
         if fam != "family":
             if r < 0.2:
                 opts["scorer"] = "dummy"
+            elif r < 0.45:
+                opts["scorer"] = rng.choice(["default", "default_none"])
             if rng.random() < 0.3:
                 # the un-truncated search only for short texts (it explodes beyond that)
                 opts["max_stack_depth"] = rng.choice([0, 1, 3] if len(text.split()) <= 3
